@@ -71,6 +71,20 @@ PROPS = {
              "has operations in >= 2 sections",
         technique="Coq proof (zero dirty segments => lower level = reference) + gauges vs store content at every label",
     ),
+    "C03": dict(
+        runs=[("conc", "", "concrun", 200, 4000, 0), TREE + (120, 2000, 24)],
+        corr=STRUCT | READS, corr_held=False,
+        spec={"spec:history", "spec:call-did-not-return", "spec:batch-failed", "tspec:reads"}, spec_held=False,
+        rule="free-running histories: 2-4 writers on disjoint key sets (each batch overwrites a marker and three payload "
+             "keys, adds a unique key, and writes a child collection in half of the cases), 1-3 snapshot readers, "
+             "MaxPreMergerBatches 1-2 so that writers block, merger/persister/compactor ungated with short stalls "
+             "injected in their progress callbacks, GOMAXPROCS in {1,2,4,16}, in-memory and store-backed with all "
+             "compaction concerns; every call is stamped with a global clock and the recorded history goes through the "
+             "verified checker (atomic per-writer prefix incl. child keys, real-time visibility, monotone prefixes); "
+             "plus gate-driven tree lock-step cases, where every label is one critical section; non-trivial = >= 2 "
+             "snapshots and >= 4 batches in the history",
+        technique="Coq proof (per-writer prefix theorem over any interleaving; checker sound and complete) + recorded free-running histories through the extracted checker + gate-driven lock-step",
+    ),
     "C04": dict(
         runs=[("coll", "store", "flatrun", 320, 6000, 26), TREE + (200, 3000, 26)],
         corr=STRUCT | READS, corr_held=False,
